@@ -1135,3 +1135,63 @@ def c18(r):
         return True
     r.negctl("Trace_Routes", chl[1:4], {"C18Laws": [(xiu, "C18.xiu."), (zx, "C18.zhiXing"), (chong, "C18.chong")]}, per_kind=1)
     r.negctl("Trace_Routes", chl[0], {"C18NaYin": [(ny, "C18.naYin.pairs-share")]}, per_kind=1)
+
+
+# --------------------------------------------------------------------- C02
+@plan("C02", "exploration")
+def c02(r):
+    r.rule = ("TLC model-checks MC_LeapRule (the no-major-term rule of LunarTable.tla on synthetic years: solstice on every day of the first "
+              "month x 10 month-length patterns x 9 term-spacing patterns: months 11,12,1..11 in order, a leap month exactly when 13 months lie "
+              "between the solstice months, agreement with the code-shaped search). One frame per lunar year 1645..3000 (all 1356 years in both "
+              "tiers): the 15-month table, the civil days of the 31 terms, and for every month start the library's own moon-sun elongation at 00:00 "
+              "of the first day and of the next day (verif hook) and an independent Meeus new-moon instant with Espenak-Meeus Delta-T. TLC checks: "
+              "elongation <= 0 <= elongation' (the new moon lies inside the first day, 1645..3000), independent instant on the same civil day unless "
+              "within 300 s + Delta-T disagreement of midnight (1929..3000), solstice in month 11 and leap placement / numbering by the rule (sui "
+              "starting 1929..2999; years with a term or new moon within a minute of midnight are not judged). Distinct non-trivial case = distinct lunar month.")
+    r.assumptions += ["'true new moon' is decided relative to the library's own series through the verif export (exact) and to harness/ephem's Meeus ch.49 series (a few seconds to minutes); ICU's Chinese calendar is not consulted in this version",
+                      "events within about a minute of UTC+8 midnight are counted as ambiguous for the leap rule, never as failures"]
+    r.build()
+    r.mc("MC_LeapRule", "MC_LeapRule")
+    ch = r.drive("c02years", maxlines=0)
+    r.validate("Trace_Lunar", ch)
+    r.sample_from(ch[:1])
+    r.cov["samples"] = [s[:600] for s in r.cov["samples"]]
+    n = 0
+    for c in ch:
+        for line in open(c, encoding="utf-8"):
+            n += len(json.loads(line).get("t", []))
+    r.cov["months"] = n
+    r.cov["distinct_nontrivial"] = n
+    r.cov["exhaustive"] = True
+    def modern(e):
+        return e["p"] == 0 and e["y"] >= 1935
+    def shift_first(e):
+        if not modern(e): return False
+        e["t"][5][3] += 1            # a month that starts one day late
+        e["t"][4][2] += 1
+        return True
+    def elong(e):
+        if not modern(e): return False
+        e["nm"][6][0] = 1500000
+        return True
+    def indep(e):
+        if not modern(e): return False
+        e["nm"][7][2] += 1
+        e["nm"][7][3] = 43200
+        return True
+    def leap_move(e):
+        # move the leap month marker to its neighbour
+        if not modern(e): return False
+        for i, row in enumerate(e["t"][:13]):
+            if row[1] < 0 and i + 1 < 13:
+                m = -row[1]
+                e["t"][i][1] = m % 12 + 1 if False else e["t"][i + 1][1]
+                e["t"][i + 1][1] = -e["t"][i + 1][1]
+                return True
+        return False
+    def add_leap(e):
+        if not modern(e) or any(row[1] < 0 for row in e["t"][:14]): return False
+        e["t"][4][1] = -e["t"][3][1]
+        return True
+    r.negctl("Trace_Lunar", ch[:6], {"C02Year": [(elong, "C02.newMoon.own-ephemeris"), (indep, "C02.newMoon.independent"),
+                                                  (leap_move, "C02.leap."), (add_leap, "C02.leap."), (shift_first, "C02.")]}, per_kind=1)
